@@ -259,8 +259,10 @@ Render ==
      \E spare \in {IF SpareOK(ty) THEN WithSpare(enc, 5) ELSE <<>>} :
      \* esds: every descriptor length padded to four bytes (0x80 0x80 0x80 n), as many muxers write it
      \E padded \in {IF ty = "esds" THEN EncEsdsPadded(v) ELSE <<>>} :
+     \E long \in {IF ty = "esds" THEN EncEsdsLong(v) ELSE <<>>} :
      \E kids \in {IF KidOK(ty) THEN WithKids(ty, enc) ELSE <<>>} :
        out' = [ done |-> TRUE, v |-> v, enc |-> enc, dec |-> dec, large |-> large, spare |-> spare, padded |-> padded,
+                long |-> long, decLong |-> IF ty = "esds" THEN DecAny(ty, long, Whole(long)) ELSE dec,
                 decPadded |-> IF ty = "esds" THEN DecAny(ty, padded, Whole(padded)) ELSE dec,
                 kids |-> kids, decKids |-> IF KidOK(ty) THEN DecAny(ty, kids, Whole(kids)) ELSE dec,
                 decLarge |-> DecAny(ty, large, Whole(large)),
@@ -272,7 +274,7 @@ Spec == Init /\ [][Next]_vars
 \* spec-level theorems over the enumerated space
 RoundTrip == out.done => out.dec = out.v
 SizeExact == out.done => Whole(out.enc).ok /\ Whole(out.enc).s = Len(out.enc) /\ Whole(out.enc).t = CodeOf(ty)
-VariantsAgree == out.done => out.decLarge = out.v /\ out.decSpare = out.v /\ out.decPadded = out.v /\ out.decKids = out.v
+VariantsAgree == out.done => out.decLarge = out.v /\ out.decSpare = out.v /\ out.decPadded = out.v /\ out.decLong = out.v /\ out.decKids = out.v
 
-Emit == out.done => PrintT("CASE " \o ToJson([t |-> ty, mode |-> mode, v |-> out.v, enc |-> out.enc, large |-> out.large, spare |-> out.spare, padded |-> out.padded, kids |-> out.kids]))
+Emit == out.done => PrintT("CASE " \o ToJson([t |-> ty, mode |-> mode, v |-> out.v, enc |-> out.enc, large |-> out.large, spare |-> out.spare, padded |-> out.padded, long |-> out.long, kids |-> out.kids]))
 =============================================================================
